@@ -114,11 +114,11 @@ static void product(long shard, long nshards)
     for (int f1 = 0; f1 < 4; ++f1)
       for (int t2 = 0; t2 < 3; ++t2)
         for (int f2 = 0; f2 < 4; ++f2)
-          for (int ovr = 0; ovr < 2; ++ovr)
+          for (int ovr = 0; ovr < 3; ++ovr) // 0 no override, 1 override on the second sink, 2 override on the first sink
           {
             if (static_cast<long>(counter++ % static_cast<unsigned long long>(nshards)) != shard) continue;
-            auto s1 = std::make_shared<CapSink>();
-            auto s2 = ovr ? std::make_shared<CapSink>(PatternFormatterOptions{"OVR %(log_level) %(message)"}) : std::make_shared<CapSink>();
+            auto s1 = ovr == 2 ? std::make_shared<CapSink>(PatternFormatterOptions{"OVR %(log_level) %(message)"}) : std::make_shared<CapSink>();
+            auto s2 = ovr == 1 ? std::make_shared<CapSink>(PatternFormatterOptions{"OVR %(log_level) %(message)"}) : std::make_shared<CapSink>();
             s1->set_log_level_filter(static_cast<LogLevel>(THR[t1]));
             s2->set_log_level_filter(static_cast<LogLevel>(THR[t2]));
             if (f1 & 1) s1->add_filter(std::make_unique<RejectOdd>());
@@ -164,8 +164,10 @@ static void product(long shard, long nshards)
                     if (s.got[0].msg != msg) report("message", cs, "sink " + std::to_string(which) + " message '" + s.got[0].msg + "' expected '" + msg + "'");
                     if (s.got[0].statement != line) report("line-pattern", cs, "sink " + std::to_string(which) + " line '" + s.got[0].statement + "' expected '" + line + "'");
                   };
-                  chk(*s1, w1, 1, std::string(LEVEL_CODE[level]) + "|" + msg + "\n");
-                  chk(*s2, w2, 2, ovr ? "OVR " + std::string(LEVEL_NAME[level]) + " " + msg + "\n" : std::string(LEVEL_CODE[level]) + "|" + msg + "\n");
+                  std::string const plain_line = std::string(LEVEL_CODE[level]) + "|" + msg + "\n";
+                  std::string const ovr_line = "OVR " + std::string(LEVEL_NAME[level]) + " " + msg + "\n";
+                  chk(*s1, w1, 1, ovr == 2 ? ovr_line : plain_line);
+                  chk(*s2, w2, 2, ovr == 1 ? ovr_line : plain_line);
                 }
             }
             Frontend::remove_logger(l);
@@ -241,7 +243,7 @@ int main(int argc, char** argv)
   bo.transit_events_soft_limit = 1;
   bo.transit_events_hard_limit = static_cast<size_t>(a.geti("--hard", 1));
   g_worker->init(bo);
-  product(shard, nshards);
+  if (a.geti("--only-slots", 0) == 0) product(shard, nshards);
   if (shard == 0) slot_reuse();
   vf::J("stat").u("evaluations", g_eval).u("executions", g_eval).u("distinct_nontrivial", g_distinct.size()).u("mismatches_total", g_viol).emit();
   vf::J("sample").s("case", "kind=1 level=ERROR logger_level=INFO s1(thr=WARNING,filters=1) s2(thr=CRITICAL,filters=0,override=1)").emit();
